@@ -275,7 +275,7 @@ def cq_N(n):
 
 # ----------------------------------------------------------------------------- stage 7
 def coq_eval(prop_id, hold_mod, agree_mod, terms, workdir, per_shard=400, want_branch=True, timeout=1500,
-             extra_imports=""):
+             extra_imports="", scope="N_scope"):
     """terms: list of (id:int, gallina_term). Returns dict with failing ids and branch histogram.
     agree_mod may be None (tie broken: only the verified oracle is evaluated)."""
     os.makedirs(workdir, exist_ok=True)
@@ -293,9 +293,9 @@ def coq_eval(prop_id, hold_mod, agree_mod, terms, workdir, per_shard=400, want_b
             f.write(f"From LV.Checks Require Import {hold_mod}.\n")
             if agree_mod:
                 f.write(f"From LV.Checks Require Import {agree_mod}.\n")
-            f.write("Open Scope N_scope.\n")
+            f.write(f"Open Scope {scope}.\n")
             f.write("Definition cases : list (N * case) := [\n")
-            f.write(";\n".join(f"({cid}, {t})" for cid, t in shards[i]))
+            f.write(";\n".join(f"({cid}%N, {t})" for cid, t in shards[i]))
             f.write("\n].\n")
             f.write("Eval vm_compute in failing_ids holds cases.\n")
             if agree_mod:
